@@ -17,7 +17,7 @@
    Frame numbers: every current frame of the hyperframe, 0 <= cur < 2715648 (this contains every 51*26*8 = 10608 cycle and the
    wrap 2715647 -> 0); the frame on air is (cur + 2) mod 2715648. *)
 From Coq Require Import ZArith List Bool.
-From OBB Require Import Base.Range Gen.MframeFw Gen.MframeTrxcon Model.Mframe Proofs.MframeP Proofs.MframeRxP.
+From OBB Require Import Base.Range Gen.MframeFw Gen.MframeTrxcon Model.Mframe Proofs.MframeP Proofs.MframeRxP Proofs.MframeSchedP.
 Import ListNotations.
 Open Scope Z_scope.
 
@@ -263,3 +263,128 @@ Theorem c11_rx_substitutes_between : forall L s fn fr st,
                          (set_st c (st_after_direct (st_after_subst st sub) fn) s).
 Proof. exact rx_substitutes_between. Qed.
 Print Assumptions c11_rx_substitutes_between.
+
+(* ================================================================== the firmware scheduler state (mframe_sched.c)
+   mfst = {tasks, tasks_tgt, safe_fn};  mf_enable / mf_disable / mf_set / mf_reset = the requests;  mf_schedule cur s = mframe_schedule()
+   at current frame cur: (the tdma_schedule_set() calls, the state afterwards);  mf_tasks_after cur s = tasks after the update at the top of
+   mframe_schedule() (tasks_tgt when the safe test holds, tasks & tasks_tgt otherwise);  mf_task_calls cur s t = the calls of that tick for
+   task t;  mf_fires = fw_fires on them;  mf_run ops s = a history of requests (OpEnable / OpDisable / OpSet / OpReset) and ticks (OpTick cur). *)
+
+(* mframe_schedule() makes exactly the calls of the per-tick core fw_mframe_schedule (the function of the theorems above) for the task mask
+   after the update: for task 0, 1, .., 31 in this order the calls of mframe_schedule_set(task) if the task is active, nothing otherwise *)
+Theorem c11_sched_tick_calls : forall cur s,
+  fst (mf_schedule cur s) = fw_mframe_schedule (mf_tasks_after cur s) cur /\
+  forall cs, fst (mf_schedule cur s) = FwOk cs -> cs = flat_map (mf_task_calls cur s) (range 0 32).
+Proof. exact tick_calls. Qed.
+Print Assumptions c11_sched_tick_calls.
+
+(* (a) a disable takes effect at the very next mframe_schedule(): a task that is not in tasks_tgt is not active after the update, whatever
+   the safe test says, and the tick makes no call for it ... *)
+Theorem c11_sched_disable_immediate : forall cur s t, 0 <= t -> Z.testbit (ms_tgt s) t = false ->
+  Z.testbit (mf_tasks_after cur s) t = false /\ mf_task_calls cur s t = [] /\ forall kind sacch, mf_fires cur s t kind sacch = false.
+Proof. exact disable_immediate. Qed.
+Print Assumptions c11_sched_disable_immediate.
+
+(* ... and it stays out of tasks_tgt through every history of ticks and requests that does not switch it on again
+   (op_keeps_off t: no mframe_enable(t), no mframe_set() with bit t; task numbers 0..31), so it starts no block from then on *)
+Theorem c11_sched_stays_off : forall t ops s, 0 <= t < 32 -> forallb (op_keeps_off t) ops = true ->
+  Z.testbit (ms_tgt s) t = false -> Z.testbit (ms_tgt (mf_run ops s)) t = false.
+Proof. exact stays_off. Qed.
+Print Assumptions c11_sched_stays_off.
+
+(* (b) an enable is never lost: mframe_schedule() never writes tasks_tgt ... *)
+Theorem c11_sched_tick_keeps_target : forall cur s, ms_tgt (mf_step s (OpTick cur)) = ms_tgt s.
+Proof. exact tick_keeps_target. Qed.
+Print Assumptions c11_sched_tick_keeps_target.
+
+(* ... so a requested task stays requested through every history that does not take the request back (op_keeps_on t: no mframe_disable(t),
+   no mframe_set() without bit t, no mframe_reset()) ... *)
+Theorem c11_sched_request_kept : forall t ops s, 0 <= t < 32 -> forallb (op_keeps_on t) ops = true ->
+  Z.testbit (ms_tgt s) t = true -> Z.testbit (ms_tgt (mf_run ops s)) t = true.
+Proof. exact pending_kept. Qed.
+Print Assumptions c11_sched_request_kept.
+
+(* ... at a tick where the safe test holds every requested task becomes active ("enabled and the safe test holds => active") ... *)
+Theorem c11_sched_safe_means_target : forall cur s, mf_safe_test cur s = true -> mf_tasks_after cur s = ms_tgt s.
+Proof. exact safe_means_target. Qed.
+Print Assumptions c11_sched_safe_means_target.
+
+(* ... and an active, still requested task stays active through every such history (at every prefix, hence at every tick of it) *)
+Theorem c11_sched_stays_on : forall t ops s, 0 <= t < 32 -> forallb (op_keeps_on t) ops = true ->
+  Z.testbit (ms_tasks s) t = true -> Z.testbit (ms_tgt s) t = true ->
+  Z.testbit (ms_tasks (mf_run ops s)) t = true /\ Z.testbit (ms_tgt (mf_run ops s)) t = true.
+Proof. exact stays_on. Qed.
+Print Assumptions c11_sched_stays_on.
+
+(* (c) liveness. Every sched set the tables refer to has 2 .. 6 frames (Gen fw_set_frames), so a started set moves safe_fn at most 6 - 2 = 4
+   frames ahead.  Invariant mf_inv cur s ("as left by the tick of frame cur"): safe_fn is force-safe (>= 2715648) or at most 4 frames ahead of
+   cur modulo 2715648.  It holds after mframe_reset(), requests do not touch safe_fn, the first tick behind a reset (at any frame)
+   establishes it and the tick of the NEXT frame keeps it - through the hyperframe wrap too *)
+Theorem c11_sched_safe_fn_invariant :
+  (forall cur, mf_inv cur mf_reset = true /\ ms_safe mf_reset = 4294967295) /\
+  (forall o s, (forall cur, o <> OpTick cur) -> o <> OpReset -> ms_tasks (mf_step s o) = ms_tasks s /\ ms_safe (mf_step s o) = ms_safe s) /\
+  (forall c1 s, 0 <= c1 < 2715648 -> 2715648 <= ms_safe s < 4294967296 ->
+     mf_inv c1 (snd (mf_schedule c1 s)) = true /\ ms_safe (snd (mf_schedule c1 s)) < 4294967296) /\
+  (forall cur s, 0 <= cur < 2715648 -> ms_safe s < 4294967296 -> mf_inv cur s = true ->
+     let c1 := (cur + 1) mod 2715648 in
+     mf_inv c1 (snd (mf_schedule c1 s)) = true /\ ms_safe (snd (mf_schedule c1 s)) < 4294967296).
+Proof. exact (conj inv_reset (conj requests_keep_tasks_and_safe (conj inv_first_tick inv_tick))). Qed.
+Print Assumptions c11_sched_safe_fn_invariant.
+
+(* under the invariant "not safe" lasts at most 4 frames: with safe_fn j <= 4 frames ahead of cur the test holds at frame cur + j .. cur + 4;
+   a tick that starts nothing leaves safe_fn alone or (safe branch) forgets it *)
+Theorem c11_sched_not_safe_at_most_4_ticks : forall cur s j, 0 <= cur < 2715648 -> ms_safe s < 4294967296 -> mf_inv cur s = true ->
+  0 <= j <= 4 -> (2715648 <= ms_safe s \/ (ms_safe s - cur) mod 2715648 <= j) ->
+  mf_safe_test ((cur + j) mod 2715648) s = true.
+Proof. exact safe_after_at_most_4. Qed.
+Print Assumptions c11_sched_not_safe_at_most_4_ticks.
+
+Theorem c11_sched_quiet_tick_safe_fn : forall cur s, fst (mf_schedule cur s) = FwOk [] ->
+  ms_safe (snd (mf_schedule cur s)) = mf_safe_after_test cur s.
+Proof. exact quiet_tick_safe. Qed.
+Print Assumptions c11_sched_quiet_tick_safe_fn.
+
+(* the state as left by the tick of frame cur, task t requested (before the tick of frame cur + 1): if the ticks of the next three frames start
+   no set, t is active after the tick of frame cur + 4 at the latest (K = 6 frames per set at most: K - 2 ticks) - unconditional on reachable
+   states; a set started in between restarts the count (the invariant above still holds then) *)
+Theorem c11_sched_enable_live : forall s0 cur t, 0 <= cur < 2715648 -> 0 <= t < 32 -> ms_safe s0 < 4294967296 -> mf_inv cur s0 = true ->
+  Z.testbit (ms_tgt s0) t = true ->
+  let c1 := (cur + 1) mod 2715648 in let c2 := (cur + 2) mod 2715648 in
+  let c3 := (cur + 3) mod 2715648 in let c4 := (cur + 4) mod 2715648 in
+  let s1 := snd (mf_schedule c1 s0) in let s2 := snd (mf_schedule c2 s1) in
+  let s3 := snd (mf_schedule c3 s2) in let s4 := snd (mf_schedule c4 s3) in
+  fst (mf_schedule c1 s0) = FwOk [] -> fst (mf_schedule c2 s1) = FwOk [] -> fst (mf_schedule c3 s2) = FwOk [] ->
+  Z.testbit (ms_tasks s4) t = true.
+Proof. exact enable_live. Qed.
+Print Assumptions c11_sched_enable_live.
+
+(* (d) from the tick at which it is active, a task starts its blocks exactly in the frames of c11_block_starts_agree / c11_tch_frames_agree:
+   the two theorems with the mask replaced by "active in the scheduler state after the update of this tick" *)
+Theorem c11_sched_block_starts_agree : forall r tn cur s,
+  In r c11_rows -> r_mode r <> Tch -> 0 <= tn < 8 -> tn_ok (r_tn r) tn = true -> 0 <= cur < 2715648 ->
+  Z.testbit (mf_tasks_after cur s) (r_task r) = true ->
+  exists L, row_layout r tn = Some L /\
+    let fn := (cur + 2) mod 2715648 in
+    mf_fires cur s (r_task r) K_NB_DL false = trx_first L DL (r_lchan r) fn /\
+    mf_fires cur s (r_task r) K_NB_DL true = trx_first_opt L DL (r_sacch r) fn /\
+    (r_mode r = Block ->
+       mf_fires cur s (r_task r) K_NB_UL false = trx_first L UL (r_lchan r) fn /\
+       mf_fires cur s (r_task r) K_NB_UL true = trx_first_opt L UL (r_sacch r) fn) /\
+    (r_mode r = BlockDL ->
+       mf_fires cur s (r_task r) K_NB_UL false = false /\ mf_fires cur s (r_task r) K_NB_UL true = false).
+Proof. exact sched_block_starts_agree. Qed.
+Print Assumptions c11_sched_block_starts_agree.
+
+Theorem c11_sched_tch_frames_agree : forall r tn cur s,
+  In r c11_rows -> r_mode r = Tch -> 0 <= tn < 8 -> tn_ok (r_tn r) tn = true -> 0 <= cur < 2715648 ->
+  Z.testbit (mf_tasks_after cur s) (r_task r) = true ->
+  exists L, row_layout r tn = Some L /\
+    let fn := (cur + 2) mod 2715648 in
+    mf_fires cur s (r_task r) K_TCH false = trx_owns L DL (r_lchan r) fn /\
+    mf_fires cur s (r_task r) K_TCH false = trx_owns L UL (r_lchan r) fn /\
+    mf_fires cur s (r_task r) K_TCH_A true = trx_owns_opt L DL (r_sacch r) fn /\
+    mf_fires cur s (r_task r) K_TCH_A true = trx_owns_opt L UL (r_sacch r) fn /\
+    mf_fires cur s (r_task r) K_TCH_D false = trx_owns_opt L DL (other_subchan (r_lchan r)) fn /\
+    mf_fires cur s (r_task r) K_TCH_D false = trx_owns_opt L UL (other_subchan (r_lchan r)) fn.
+Proof. exact sched_tch_frames_agree. Qed.
+Print Assumptions c11_sched_tch_frames_agree.
